@@ -179,7 +179,7 @@ class ExprMixin:
                     return [(q, self.new_box(q, "list", [ety_hint], VSeq.empty(ety_hint)))]
                 return [(q, self.new_object(q, "list[?]", "list"))]
             ety = ety_hint or self.join_types([v for v in vs])
-            return [(q, self.new_box(q, "list", [ety], VSeq.of([coerce(v, ety) for v in vs], ety)))]
+            return [(q, self.new_box(q, "list", [ety], VSeq.of([self.adapt(q, v, ety) for v in vs], ety)))]
         if ety_hint is not None and node.elts:
             res = [(p, [])]
             for n in node.elts:
@@ -411,6 +411,13 @@ class ExprMixin:
                 pass
             else:
                 b = coerce(b, a.ty)
+        bl = z3.simplify(b.len)
+        if z3.is_int_value(bl) and bl.as_long() <= 4:
+            # appending a short literal: plain stores (much easier on quantifier instantiation than a lambda)
+            arrs = list(a.arrs)
+            for off in range(bl.as_long()):
+                arrs = [z3.Store(x, a.len + off, z3.simplify(z3.Select(y, off))) for x, y in zip(arrs, b.arrs)]
+            return VSeq(a.len + bl.as_long(), arrs, a.elem)
         i = z3.Int(fresh_name("ci"))
         arrs = [z3.Lambda([i], z3.If(i < a.len, z3.Select(x, i), z3.Select(y, i - a.len))) for x, y in zip(a.arrs, b.arrs)]
         return VSeq(a.len + b.len, arrs, a.elem)
@@ -686,9 +693,10 @@ class ExprMixin:
         if isinstance(base, VSeq) and isinstance(idx, (VInt, VBool)):
             i = coerce(idx, INT).z
             n = base.len
-            j = z3.If(i < 0, i + n, i)
             if self.spec_mode:
-                return [(p, base.at(j))]
+                # specifications index sequences mathematically (no negative-index wrap-around)
+                return [(p, base.at(i))]
+            j = z3.If(i < 0, i + n, i)
 
             def ok(q):
                 v = base.at(j)
